@@ -18,7 +18,7 @@
    merge / agg_flush / agg_reset, dumps compared after every Flush and Reset (timer values as
    multisets: Flush sorts them in place). *)
 From stdpp Require Import gmap.
-From GS Require Export Corr.MMLib Model.Content Model.Pipeline.
+From GS Require Export Corr.MMLib Model.Content Model.Pipeline Model.PipelineBounded.
 From Coq Require Import QArith Qcanon.
 From GS Require Model.Datagram.
 
@@ -35,9 +35,29 @@ Inductive aop :=
 | AFlush (obs : list entry)
 | AReset (now : Z) (obs : list entry).
 
+(* what one goroutine of the real pipeline was seen doing, in its own order *)
+Inductive wev :=
+| WM (b : nat)      (* worker: ReceiveMap of the split of batch b *)
+| WC                (* worker: the process command starts (Flush is entered) *)
+| WE.               (* worker: the process command ends (Reset has returned) *)
+
+(* a proposed interleaving (computed by the harness from the per-goroutine logs; unobservable
+   channel sends filled in); Coq checks that it is a run of Model/PipelineBounded.v *)
+Inductive wlabel :=
+| WParse (p b : nat) | WEnq (p : nat) | WRdv (p : nat) | WMerge (i : nat) | WTick | WCmd (i : nat) | WExec (i : nat).
+
+Record strace := STrace {
+  tr_parsers : nat; tr_qcap : nat;
+  tr_exp_counter : Z; tr_exp_timer : Z; tr_exp_gauge : Z; tr_exp_set : Z;
+  tr_wit : list wlabel;
+  tr_plog : list (list nat);      (* per parser: the batches it dispatched *)
+  tr_wlog : list (list wev);      (* per worker *)
+  tr_ticks : nat                  (* flushData calls *)
+}.
+
 Inductive c01case :=
 | SysCase (shards : nat) (batches : list (list dgram)) (table : list (str * pfres))
-          (flushes : list (nat * nat * list oentry))
+          (flushes : list (nat * nat * list oentry)) (tr : strace)
 | AggCase (c : config) (ops : list aop).
 
 (* ---------------------------------------------------------------------------------------- *)
@@ -47,11 +67,11 @@ Definition oracle (t : list (str * pfres)) (s : str) : pfres :=
 
 (* the datapoints of all batches (parser.go through Model/Datagram.v); None = the datagram
    model reports a panic *)
-Definition parse_batches (t : list (str * pfres)) (bs : list (list dgram)) : option (list datapoint) :=
+Definition parse_each (t : list (str * pfres)) (bs : list (list dgram)) : option (list (list datapoint)) :=
   foldr (λ b acc,
            match acc, Datagram.parse_all (oracle t) (Datagram.Cfg [] false)
                         (map (λ d, Datagram.Dg (dg_ip d) (dg_ts d) (dg_msg d)) b) with
-           | Some ds, Datagram.DgOk r => Some (Datagram.dg_metrics r ++ ds)
+           | Some ds, Datagram.DgOk r => Some (Datagram.dg_metrics r :: ds)
            | _, _ => None
            end) (Some []) bs.
 
@@ -125,11 +145,86 @@ Definition routed (n : nat) (fl : list (nat * nat * list oentry)) : bool :=
 
 Record sys_view := SV { sv_in : list cd; sv_out : list cd }.
 
-Definition sys_model (n : nat) (bs : list (list dgram)) (t : list (str * pfres))
-    (fl : list (nat * nat * list oentry)) : option (mmap * mmap) :=
-  match parse_batches t bs with
-  | Some ds => Some (receive_all empty_map ds, merge_maps (map (λ x, omap_of x.2) fl))
-  | None => None
+Definition sys_model (dps : list (list datapoint)) (fl : list (nat * nat * list oentry)) : mmap * mmap :=
+  (receive_all empty_map (concat dps), merge_maps (map (λ x, omap_of x.2) fl)).
+
+(* ---- the recorded run against Model/PipelineBounded.v ----
+   The harness stamps the datagrams of batch b with 1000 + 100 b + (index in the batch), so the
+   batch a split map belongs to can be read off the timestamp of any of its entries. *)
+Definition first_ts (m : mmap) : option Z :=
+  match map_to_list (counters m), map_to_list (timers m), map_to_list (gauges m), map_to_list (sets m) with
+  | (_, x) :: _, _, _, _ => Some (c_ts x)
+  | [], (_, x) :: _, _, _ => Some (t_ts x)
+  | [], [], (_, x) :: _, _ => Some (g_ts x)
+  | [], [], [], (_, x) :: _ => Some (s_ts x)
+  | [], [], [], [] => None
+  end.
+Definition map_batch (m : mmap) : nat :=
+  match first_ts m with Some ts => Z.to_nat ((ts - 1000) / 100) | None => 4999 end.
+
+Inductive ev := EvP (p b : nat) | EvW (i : nat) (e : wev) | EvT.
+
+Definition big_now : Z := 4611686018427387904.  (* the aggregators run on the wall clock; expiry is 0 or 1 ns *)
+
+Fixpoint replay (bc : bconfig) (dps : list (list datapoint)) (b : bstate) (ws : list wlabel) (acc : list ev)
+    : option (bstate * list ev) :=
+  match ws with
+  | [] => Some (b, rev acc)
+  | w :: r =>
+      let le : option (blabel * list ev) :=
+        match w with
+        | WParse p k => (λ ds, (BParse p ds, [EvP p k])) <$> dps !! k
+        | WEnq p => Some (BEnq p, [])
+        | WRdv p => match bs_pending b !! p with
+                    | Some ((i, m) :: _) => Some (BRdv p, [EvW i (WM (map_batch m))])
+                    | _ => None
+                    end
+        | WMerge i => match bs_queue b !! i with
+                      | Some (m :: _) => Some (BMerge i, [EvW i (WM (map_batch m))])
+                      | _ => None
+                      end
+        | WTick => Some (BTick (bs_nflush b), [EvT])
+        | WCmd i => Some (BCmd i, [EvW i WC])
+        | WExec i => Some (BExec i big_now, [EvW i WE])
+        end in
+      match le with
+      | Some (l, e) => match bstep bc b l with Some b' => replay bc dps b' r (e ++ acc) | None => None end
+      | None => None
+      end
+  end.
+
+Definition wev_eqb (a b : wev) : bool :=
+  match a, b with WM x, WM y => (x =? y)%nat | WC, WC => true | WE, WE => true | _, _ => false end.
+Definition parser_events (p : nat) (evs : list ev) : list nat :=
+  omap (λ e, match e with EvP p' b => if (p' =? p)%nat then Some b else None | _ => None end) evs.
+Definition worker_events (i : nat) (evs : list ev) : list wev :=
+  omap (λ e, match e with EvW i' x => if (i' =? i)%nat then Some x else None | _ => None end) evs.
+Definition tick_events (evs : list ev) : nat :=
+  length (List.filter (λ e, match e with EvT => true | _ => false end) evs).
+Definition is_nil {A} (l : list A) : bool := match l with [] => true | _ => false end.
+
+(* [run is a bounded run; parser logs; worker logs; ticks; ends idle; reported maps] *)
+Definition check_trace (n : nat) (dps : list (list datapoint)) (fl : list (nat * nat * list oentry)) (tr : strace)
+    : list bool :=
+  let bc := MkBCfg (MkCfg n (tr_exp_counter tr) (tr_exp_timer tr) (tr_exp_gauge tr) (tr_exp_set tr))
+                   (tr_parsers tr) (tr_qcap tr) in
+  match replay bc dps (binit bc) (tr_wit tr) [] with
+  | None => [false]
+  | Some (b, evs) =>
+      [ true;
+        (length (tr_plog tr) =? tr_parsers tr)%nat
+          && forallb (λ '(p, l), list_eqb Nat.eqb (parser_events p evs) l) (imap (λ p l, (p, l)) (tr_plog tr));
+        (length (tr_wlog tr) =? n)%nat
+          && forallb (λ '(i, l), list_eqb wev_eqb (worker_events i evs) l) (imap (λ i l, (i, l)) (tr_wlog tr));
+        (tick_events evs =? tr_ticks tr)%nat;
+        forallb is_nil (bs_pending b) && forallb is_nil (bs_queue b) && forallb negb (bs_busy b)
+          && bflush_idle n (bs_busy b) (bs_flush b);
+        (length (bs_out b) =? length fl)%nat
+          && forallb (λ '(f, w, es),
+                        match List.find (λ '(f', w', _), (S f' =? f)%nat && (w' =? w)%nat) (bs_out b) with
+                        | Some (_, _, m) => same_content m (omap_of es)
+                        | None => false
+                        end) fl ]
   end.
 
 Definition norm (m : mmap) : mmap :=
@@ -156,13 +251,15 @@ Fixpoint trace_agg (c : config) (a : mmap) (ops : list aop) : list (list entry) 
 
 Definition check_case (c : c01case) : bool :=
   match c with
-  | SysCase n bs t fl =>
-      match sys_model n bs t fl with
-      | Some (m_in, m_out) =>
+  | SysCase n bs t fl tr =>
+      match parse_each t bs with
+      | Some dps =>
+          let '(m_in, m_out) := sys_model dps fl in
           same_content m_in m_out
           && routed n fl
           && pairs_unique (map (λ x, x.1) fl)
           && series_unique_per_flush fl
+          && forallb id (check_trace n dps fl tr)
       | None => false
       end
   | AggCase cfg ops => run_agg cfg empty_map ops
@@ -170,14 +267,18 @@ Definition check_case (c : c01case) : bool :=
 
 Inductive explain :=
 | XSys (sent : list cd) (flushed_total : list cd) (routed : bool) (flush_worker_unique series_unique_per_flush : bool)
+       (bounded_run__parser_logs__worker_logs__ticks__ends_idle__reported_maps : list bool)
 | XSysPanic
 | XAgg (dumps : list (list entry)).
 
 Definition explain_case (c : c01case) : explain :=
   match c with
-  | SysCase n bs t fl =>
-      match sys_model n bs t fl with
-      | Some (m_in, m_out) => XSys (cdump m_in) (cdump m_out) (routed n fl) (pairs_unique (map (λ x, x.1) fl)) (series_unique_per_flush fl)
+  | SysCase n bs t fl tr =>
+      match parse_each t bs with
+      | Some dps =>
+          let '(m_in, m_out) := sys_model dps fl in
+          XSys (cdump m_in) (cdump m_out) (routed n fl) (pairs_unique (map (λ x, x.1) fl)) (series_unique_per_flush fl)
+               (check_trace n dps fl tr)
       | None => XSysPanic
       end
   | AggCase cfg ops => XAgg (trace_agg cfg empty_map ops)
